@@ -24,6 +24,10 @@ ASSUMPTIONS = [
     "schema-expressible is read narrowly where the property text leaves the domain open: initial states are InitialState objects, "
     "stop lines have explicit points, shape groups have >= 2 members, additional sign values are non-empty strings, a dynamic "
     "obstacle has a prediction, interval bounds are ordered, polygons are non-degenerate (extent >> 10^-d)",
+    "3-D geometry is outside the property (2-D): specs with z on lanelet bounds / planning-problem start positions (8 %) are used "
+    "for the model correspondence of <z> only and counted as excluded",
+    "the benchmark id is a string at the model boundary (ScenarioID.from_benchmark_id(str(id)) is C13's subject); the date "
+    "attribute is an environment input of the model (what today() returned)",
     "first_occurrence of a traffic sign, the centre line of a lanelet, TrafficLight.color and the state class name are not part of "
     "the XML format (derived on reading) and are not compared",
 ]
@@ -31,7 +35,7 @@ TRUSTED = ["harness/snapshot.py (structural snapshot through public accessors) a
 REQUIRED_BUCKETS = ["role:static", "role:dynamic", "role:environment", "role:phantom", "pred:trajectory", "pred:set",
                     "shape:rect", "shape:circ", "shape:poly", "shape:group", "state:interval", "state:region", "state:custom",
                     "init:no-acceleration", "sign:virtual", "signal:horn", "goal:lanelets", "goal:shape", "light:inactive",
-                    "stopline", "intersection", "precision:1", "precision:12", "xsd-valid",
+                    "stopline", "intersection", "precision:1", "precision:12", "xsd-valid", "3d",
                     # every member of these XSD enumerations was used at least once
                     "enum-full:lineMarking", "enum-full:laneletType", "enum-full:vehicleType", "enum-full:obstacleTypeStatic",
                     "enum-full:obstacleTypeDynamic", "enum-full:obstacleTypeEnvironment", "enum-full:trafficLightColor",
@@ -185,6 +189,11 @@ def judge(ctx, spec, d, path, model=True):
     except Exception:  # noqa
         ok = False
     ctx.tag("xsd-valid" if ok else "xsd-invalid")
+    if spec.get("three_d"):
+        # the property speaks of 2-D geometry: a 3-D spec is only used for the correspondence (model of <z>)
+        ctx.excluded += 1
+        ctx.tag("3d")
+        return before, back
     want = expected(before)
     ds = S.diff(want, back, S.tol_precision(d), ignore=IGNORE)
     seen = set()
@@ -228,7 +237,7 @@ class Reals:
 
 
 def m_pt(R, p):
-    return {"x": R(p[0]), "y": R(p[1])}
+    return {"x": R(p[0]), "y": R(p[1]), "z": R(p[2]) if len(p) > 2 else None}
 
 
 def m_shape1(R, s):
@@ -383,7 +392,7 @@ def xml_json(el):
     return [el.tag, [[k, v] for k, v in el.attrib.items()], (el.text or "").strip(), [xml_json(c) for c in el]]
 
 
-REAL_KEYS = {"x", "y", "l", "w", "o", "r", "v", "lo", "hi"}
+REAL_KEYS = {"x", "y", "z", "l", "w", "o", "r", "v", "lo", "hi", "dt", "lat", "lon", "rot", "scaling"}
 SET_KEYS = {"types", "oneWay", "bidir", "signs", "lights", "signRefs", "lightRefs", "lanelets", "right", "straight", "left",
             "crossings", "pred", "succ"}
 
@@ -403,26 +412,63 @@ def canon_doc(j, key=None):
     return j
 
 
+def m_location(R, loc):
+    if loc is None:
+        return None
+    g, e = loc.geo_transformation, loc.environment
+    return {"geoNameId": int(loc.geo_name_id), "lat": R(loc.gps_latitude), "lon": R(loc.gps_longitude),
+            "geo": None if g is None else {
+                "ref": g.geo_reference,
+                "add": None if g.x_translation is None else {"x": R(g.x_translation), "y": R(g.y_translation), "rot": R(g.z_rotation),
+                                                              "scaling": R(g.scaling)}},
+            "env": None if e is None else {"hours": int(e.time.hours), "minutes": int(e.time.minutes), "timeOfDay": e.time_of_day.value,
+                                            "weather": e.weather.value, "underground": e.underground.value}}
+
+
+def m_file(R, sc, pps, tags):
+    return {"header": {"dt": R(sc.dt), "author": sc.author, "affiliation": sc.affiliation, "source": sc.source,
+                       "benchmarkId": str(sc.scenario_id)},
+            "location": m_location(R, sc.location), "tags": tags, "body": m_doc(R, sc, pps)}
+
+
+def file_cfg(d, fix, pos, today):
+    from commonroad.scenario.state import SpecificStateClasses
+    from commonroad.scenario.traffic_sign import SupportedTrafficSignCountry, TrafficSignIDCountries
+    if "classes" not in _CFG:
+        _CFG["classes"] = [list(c().attributes) for c in SpecificStateClasses]
+    if "tables" not in _CFG:
+        _CFG["tables"] = [[c, [[m.value for m in en], en.MAX_SPEED.value if hasattr(en, "MAX_SPEED") else None]]
+                          for c, en in TrafficSignIDCountries.items()]
+        _CFG["countries"] = [c.value for c in SupportedTrafficSignCountry]
+    return {"P": {"d": d, "fix": fix, "pos": [list(x) for x in pos]}, "classes": _CFG["classes"], "countries": _CFG["countries"],
+            "tables": _CFG["tables"], "today": today}
+
+
 def correspond(ctx, case, spec, d, path, sc, pps, sc2, pps2):
-    """model encode vs the written file; model decode of the written file vs what the reader returned; model round trip vs norm"""
+    """whole file: model encode vs the written tree; model decode of the written tree vs what the reader returned;
+    model round trip vs norm (the statement of C01_xml_roundtrip_whole_file, executed)"""
     from lxml import etree
-    country = spec["scenario_id"]["country"]
+    from commonroad.scenario.scenario import Tag
     R = Reals()
-    doc = m_doc(R, sc, pps)
-    cfg = model_cfg(country, d, R.fix(d), R.pos())
+    # the writer iterates the scenario's tag set (`for tag in tags`): same object, same order
+    fil = m_file(R, sc, pps, [t.value for t in sc.tags])
     root = etree.parse(path).getroot()
-    kids = [xml_json(c) for c in root]
-    body = [k for k in kids if k[0] not in ("location", "scenarioTags")]
-    enc = ctx.driver.ask("C01", "encode", {"cfg": cfg, "doc": doc})
-    ctx.compare(case, {"ok": body}, enc, "XMLFileWriter body elements vs CR.X.encodeDoc")
-    dec = ctx.driver.ask("C01", "decode", {"cfg": cfg, "kids": kids})
+    fcfg = file_cfg(d, R.fix(d), R.pos(), root.get("date"))
+    tree = xml_json(root)
+    enc = ctx.driver.ask("C01", "encode_file", {"fcfg": fcfg, "file": fil})
+    ctx.compare(case, {"ok": tree}, enc, "XMLFileWriter <commonRoad> tree vs CR.X.encodeFile")
+    dec = ctx.driver.ask("C01", "decode_file", {"fcfg": fcfg, "xml": tree})
     R2 = Reals()
-    back = m_doc(R2, sc2, pps2)
+    back = m_file(R2, sc2, pps2, [t.value for t in Tag if t in sc2.tags])
     ctx.compare(case, {"ok": canon_doc(back)}, {"ok": canon_doc(dec["ok"])} if "ok" in dec else dec,
-                "XMLFileReader result vs CR.X.decodeDoc of the written file")
-    rt = ctx.driver.ask("C01", "roundtrip", {"cfg": cfg, "doc": doc})
-    nm = ctx.driver.ask("C01", "norm", {"cfg": cfg, "doc": doc})
-    ctx.compare(case, rt, nm, "CR.X.decodeDoc (encodeDoc x) vs CR.X.normDoc x (the statement of C01_xml_roundtrip, executed)")
+                "XMLFileReader result vs CR.X.decodeFile of the written tree")
+    rt = ctx.driver.ask("C01", "roundtrip_file", {"fcfg": fcfg, "file": fil})
+    nm = ctx.driver.ask("C01", "norm_file", {"fcfg": fcfg, "file": fil})
+    ctx.compare(case, rt, nm, "CR.X.decodeFile (encodeFile x) vs CR.X.normFile x (the statement of C01_xml_roundtrip_whole_file, executed)")
+    import datetime
+    today = datetime.datetime.today()
+    if root.get("date") not in (today.strftime("%Y-%m-%d"), (today - datetime.timedelta(days=1)).strftime("%Y-%m-%d")):
+        ctx.compare(case, root.get("date"), today.strftime("%Y-%m-%d"), "date attribute vs today's date")
 
 
 # ------------------------------------------------------------------------------------------------ run
@@ -442,7 +488,7 @@ def run(ctx):
         case = json.load(open(p))
         tags_of(ctx, case["spec"], case["precision"])
         judge(ctx, case["spec"], case["precision"], path)
-    gen = G.Gen(ctx.rng)
+    gen = G.Gen(ctx.rng, three_d=0.08)
     for k in range(ctx.n(400)):
         spec = gen.gen_spec()
         for d in precisions_for(ctx, k):
